@@ -66,7 +66,7 @@ Check(r, k) ==
             THEN "C09: with observers more than the single unfinished token is held back"
        ELSE Check(r, k + 1)
 
-Verdict(r) == Check(r, 1)
+Verdict(r) == IF "failed" \in DOMAIN r THEN "C09: a write of an observer-only run failed: " \o r.failed ELSE Check(r, 1)
 
 TInit == l = 1 /\ nbad = 0
 TNext == /\ l <= Len(Rec)
